@@ -276,8 +276,12 @@ fn family_substitution(thorough: bool) -> Vec<Case> {
         "X (Y)",
         "mov word [bx, si, X], Y",
         "mov Y, word w1 add X, 1",
+        // positions that take unsigned constants only, and a direct address
+        "and X, Y",
+        "test X, Y",
+        "mov al, byte [X]",
     ];
-    let args = ["ax", "BX", "cl", "ds", "5", "0x10", "0b101", "65535", "byte [bx]", "word [bx, si, 2]", "word es[di]", "byte ab", "word w1", "ab", "m", "zz"];
+    let args = ["ax", "BX", "cl", "ds", "5", "0x10", "0b101", "65535", "0x8000", "40000", "byte [bx]", "word [bx, si, 2]", "word es[di]", "word ds[bp, 2]", "byte ds[bp, si]", "word ss[bx]", "byte ab", "word w1", "ab", "m", "zz"];
     for pl in plists.iter() {
         for t in templates.iter() {
             let x = pl[0];
@@ -354,6 +358,17 @@ fn family_special() -> Vec<Case> {
             out.push(Case { family: "use-sequence", defs: defs.clone(), data: String::new(), code: format!("def f {{\ncmc\n{}}}\nstart:\ncall f\n{}", uses, uses) });
         }
     }
+    // macros with 9 .. 13 parameters, every parameter used, in order, reversed, and the last one alone
+    for np in [9usize, 10, 11, 12, 13] {
+        let params: Vec<String> = (0..np).map(|k| format!("p{}", k)).collect();
+        let pr: Vec<&str> = params.iter().map(|x| x.as_str()).collect();
+        let args: Vec<String> = (0..np).map(|k| format!("{}", 100 + 7 * k)).collect();
+        let fwd: String = (0..np).map(|k| format!("add ax, p{} ", k)).collect();
+        let rev: String = (0..np).rev().map(|k| format!("add bx, p{} ", k)).collect();
+        for body in [fwd.clone(), rev.clone(), format!("mov cx, p{}", np - 1), format!("mov cx, p{} mov dx, p1 mov si, p0", np - 1)] {
+            out.push(Case { family: "many-parameters", defs: vec![d("big", &pr, body.trim())], data: String::new(), code: format!("start:\nbig({})\n", args.join(", ")) });
+        }
+    }
     // chains of moderate depth
     for depth in [1usize, 2, 4, 8, 16, 32, 64] {
         let mut defs = vec![d("c0", &["a"], "inc a")];
@@ -428,7 +443,7 @@ pub fn run(tier: &Tier) -> i32 {
     c.states.fetch_add(st.0.load(Ordering::Relaxed), Ordering::Relaxed);
     let mut cov = Coverage::default();
     cov.exhaustive = true;
-    cov.rule = "differential: the program with macros must emit exactly what the real Preprocessor emits for the reference expansion (whole-word, simultaneous textual substitution, nested uses expanded) pasted in place. Families: EVERY use graph over 1, 2 and 3 macros (4 in thorough; each macro uses any subset of the macros incl. itself => all DAGs and all cyclic graphs), used from top level by each macro and from inside a procedure; parameter lists whose names are prefixes/substrings of each other and of body tokens x 9 body templates (register, immediate, memory, displacement and macro-name slots) x 16 argument kinds squared; by-name passing incl. cycles closed through a name; every sequence of up to 3 uses over macros with empty, blank, plain and nested-empty bodies (top level and inside a procedure); unknown and late-defined macros; chains of depth 1..64 in-process and up to 4096 through the real binary. Cyclic / unknown => diagnostic positioned at a use site; invalid expansion => rejected; deep chains => exact expansion up to depth 64, above that expansion or diagnostic but never an abort".into();
+    cov.rule = "differential: the program with macros must emit exactly what the real Preprocessor emits for the reference expansion (whole-word, simultaneous textual substitution, nested uses expanded) pasted in place. Families: EVERY use graph over 1, 2 and 3 macros (4 in thorough; each macro uses any subset of the macros incl. itself => all DAGs and all cyclic graphs), used from top level by each macro and from inside a procedure; parameter lists whose names are prefixes/substrings of each other and of body tokens x 12 body templates (register, immediate, unsigned-only immediate, direct address, memory, displacement and macro-name slots) x 21 argument kinds squared (incl. constants above 0x7FFF and DS / SS overrides on BP- and BX-based operands); macros with 9 .. 13 parameters; by-name passing incl. cycles closed through a name; every sequence of up to 3 uses over macros with empty, blank, plain and nested-empty bodies (top level and inside a procedure); unknown and late-defined macros; chains of depth 1..64 in-process and up to 4096 through the real binary. Cyclic / unknown => diagnostic positioned at a use site; invalid expansion => rejected; deep chains => exact expansion up to depth 64, above that expansion or diagnostic but never an abort".into();
     cov.bounds = json!({"cases": cases.len(), "reference_rejects": st.1.load(Ordering::Relaxed), "both_expand": st.2.load(Ordering::Relaxed), "chain_depths": depths, "tier": tier.name()});
     cov.assumptions = common_assumptions();
     cov.assumptions.push("macro arguments are generated as unsigned numbers, registers, memory operands and identifiers (negative literals as arguments are not demanded)".into());
